@@ -86,6 +86,11 @@ def dec(w, ruamel=False, cls=None):
         if 'jsonify' in w:
             from pypyr.dsl import Jsonify
             return Jsonify(dec(w['jsonify'], ruamel))
+        if 'pysrc' in w:
+            # arbitrary-Python !py (method calls with side effects: `free_ports.pop()`): outside PyEval.lean's
+            # sub-language, the models reject the case; the monitors judge it on the implementation alone
+            from pypyr.dsl import PyString
+            return PyString(w['pysrc'])
     return common.dec(w)
 
 
@@ -364,8 +369,153 @@ def defaults_monitor(before_copy, live_ids, after, nt, path, fails, fa, fb=None)
 
 
 # ---------------------------------------------------------------------------------------------
+# the property text as an executable reference (entry by entry, on deep copies)
+# ---------------------------------------------------------------------------------------------
+#
+# "Merging a mapping into context changes only the paths the incoming mapping names ... incoming strings and scalars
+# overwrite, mappings merge recursively, and lists, tuples and sets are extended with the formatted incoming members
+# after the existing ones. Setting defaults never changes the value at any path that already exists ... and adds
+# exactly the missing ones. Both apply formatting to incoming keys and values."  Read entry by entry: the incoming
+# mapping is walked in order; an entry's key and - where the entry has to write something - its value are formatted
+# ONCE, as a whole, against the context as merged so far (i.e. BEFORE that entry writes anything), then the entry's
+# path is written in one go. An entry that has nothing to write (a default for a path that exists) evaluates nothing.
+# An entry that cannot be formatted writes nothing (the walk ends there with the formatter's error).
+# The reference runs on a deep copy of context + incoming mapping with the real formatter as its only primitive;
+# the implementation must end with the same outcome (returns / raises the same class of error) and leave the context
+# deep-equal to the reference's - after a failure too (a failed operation has written the entries before the failing
+# one completely and the failing one not at all).
+
+class RefLog:
+    """what the reference evaluated / skipped, for the detail text"""
+
+    def __init__(self):
+        self.skipped = []          # paths whose default was NOT evaluated (the path exists)
+        self.failed_at = None      # path of the entry whose formatting raised
+
+
+def ref_apply(octx, op, add, log):
+    """The operation on the copy `octx` (a Context). Returns the exception raised, or None."""
+    F = octx.get_formatted_value
+    defaults = op in ('defaults', 'step-default')
+
+    def rec(cur, inc, path):
+        for k, v in inc.items():
+            log.failed_at = path + (k,)
+            fk = F(k)
+            p = path + (fk,)
+            log.failed_at = p
+            if defaults:
+                if fk in cur:
+                    if isinstance(cur[fk], Mapping) and isinstance(v, Mapping):
+                        rec(cur[fk], v, p)
+                    else:
+                        log.skipped.append(p)              # exists: stays, its default is not looked at
+                else:
+                    cur[fk] = F(v)
+                continue
+            if is_strlike(v):
+                cur[fk] = F(v)
+            elif isinstance(v, (bytes, bytearray)):
+                cur[fk] = v
+            elif fk in cur:
+                old = cur[fk]
+                if isinstance(old, Mapping) and isinstance(v, Mapping):
+                    rec(old, v, p)
+                elif isinstance(old, list) and isinstance(v, list):
+                    fv = F(v)                              # the whole incoming list first ...
+                    old.extend(fv)                         # ... then after the existing members
+                elif isinstance(old, tuple) and isinstance(v, tuple):
+                    cur[fk] = old + F(v)
+                elif isinstance(old, Set) and isinstance(v, Set):
+                    cur[fk] = old | F(v)
+                else:
+                    cur[fk] = F(v)
+            else:
+                cur[fk] = F(v)
+        log.failed_at = None
+
+    try:
+        if op in STEP_KEY:
+            octx.assert_key_has_value(key=STEP_KEY[op], caller='reference')
+        rec(octx, add, ())
+        if op in STEP_KEY:
+            len(octx[STEP_KEY[op]])           # the step's log line
+    except Exception as e:                    # RecursionError included
+        return e
+    return None
+
+
+def reference_monitor(op, err, after, octx, oerr, log, fails):
+    what = {'merge': 'Context.merge', 'defaults': 'Context.set_defaults', 'step-merge': 'pypyr.steps.contextmerge',
+            'step-default': 'pypyr.steps.default'}[op]
+    defaults = op in ('defaults', 'step-default')
+    expected = dict(octx)
+    if err is not None and oerr is None:
+        why = ''
+        if defaults and log.skipped:
+            why = (f'; the defaults for the paths that exist already ({", ".join(fmt_path(list(p)) for p in log.skipped[:4])}) '
+                   f'are of no consequence and must not be evaluated')
+        fails.append(('raises-where-entry-by-entry-succeeds',
+                      f'{what} raised {type(err).__name__}: {str(err)[:100]} although every incoming key and value it has '
+                      f'to format formats against the context as merged so far{why}'))
+    elif err is None and oerr is not None:
+        fails.append(('succeeds-where-entry-by-entry-raises',
+                      f'{what} returned although the entry at {fmt_path(list(log.failed_at or ()))} cannot be formatted '
+                      f'against the context as merged so far ({type(oerr).__name__}: {str(oerr)[:100]})'))
+    elif err is not None and type(err) is not type(oerr):
+        fails.append(('raises-differently', f'{what} raised {type(err).__name__}: {str(err)[:80]}; entry by entry the '
+                                            f'first failure is {type(oerr).__name__}: {str(oerr)[:80]}'))
+    if has_cycle(after) or has_cycle(expected):
+        return
+    if not deep_equal(after, expected):
+        diff = first_diff(after, expected).replace('after the step', 'in the context').replace(
+            'after the direct call', 'expected').replace('step ', 'found ').replace('direct call ', 'expected ')
+        if err is not None and oerr is not None:
+            fails.append(('failed-entry-partly-written',
+                          f'{what} raised {type(err).__name__} at the entry {fmt_path(list(log.failed_at or ()))}; the '
+                          f'entries before it must be written completely and the failing one not at all, but {diff}'))
+        elif err is None and oerr is None:
+            fails.append(('entry-by-entry',
+                          f'{what}: each incoming key and value is formatted once, as a whole, against the context as merged '
+                          f'so far (before its own entry writes anything), and only entries that have something to write are '
+                          f'evaluated; but {diff}'))
+
+
+def atomic_monitor(before_copy, after, nt, path, fails):
+    """Judged without any reference run, after an operation that RAISED: a list / tuple / set path named by the
+    incoming mapping holds either exactly its old members or the old members followed by ALL the incoming ones -
+    "extended with the formatted incoming members after the existing ones" knows no third state."""
+    if has_unknown(nt) or len(path) > MAX_DEPTH or not isinstance(before_copy, Mapping) or not isinstance(after, Mapping):
+        return
+    for fk, ent in nt.items():
+        if ent[0] == '?' or fk not in before_copy or fk not in after:
+            continue
+        old, new, p = before_copy[fk], after[fk], path + [fk]
+        if ent[0] == 'd':
+            atomic_monitor(old, new, ent[1], p, fails)
+            continue
+        v = ent[1]
+        if is_strlike(v) or isinstance(v, (bytes, bytearray)):
+            continue
+        if isinstance(old, list) and isinstance(v, list) and isinstance(new, list):
+            if len(new) not in (len(old), len(old) + len(v)) or not deep_equal(list(new)[:len(old)], list(old)):
+                fails.append(('list-half-extended',
+                              f'the operation raised and left {fmt_path(p)} with {len(new)} members: neither the '
+                              f'{len(old)} it had nor those followed by all {len(v)} incoming ones '
+                              f'({stable_repr(old)[:60]} -> {stable_repr(new)[:100]})'))
+
+
+# ---------------------------------------------------------------------------------------------
 # running one case on the implementation
 # ---------------------------------------------------------------------------------------------
+
+def has_pysrc(w):
+    if isinstance(w, list):
+        return any(has_pysrc(x) for x in w)
+    if isinstance(w, dict):
+        return 'pysrc' in w or any(has_pysrc(x) for x in w.values())
+    return False
+
 
 def case_ops(case):
     """The operations of a case, in order: [{"op": …, "add": wire (optional for the step ops)}…]."""
@@ -423,6 +573,12 @@ def _run_impl(case):
         heap = {'skip': 'too-deep'}
     fails = []
     obs = None
+    swallowed = []         # [[index, error name]…] of failed operations marked "swallow": the sequence goes on
+    use_ref = not case['stream'].startswith('alias:')
+    # side-effecting !py ({"pysrc": …}: `free_ports.pop()`): an expression that HAS to be evaluated may change other
+    # paths (DESIGN: in-place mutations by !py stay visible) - the frame / table / defaults monitors, which hold every
+    # un-named path to its old value, stand back and the reference run alone says which evaluations were due
+    effects = has_pysrc(case)
     for i, o in enumerate(ops):
         op = o['op']
         tag = f'op#{i} {op}: ' if len(ops) > 1 else ''
@@ -433,7 +589,7 @@ def _run_impl(case):
             else:
                 adds[i] = ctx.get(key, _ABSENT)
                 snaps[i] = Snapshot(adds[i]) if adds[i] is not _ABSENT else None
-        err, f1 = run_one(ctx, op, adds[i])
+        err, f1 = run_one(ctx, op, adds[i], use_ref, effects)
         fails += [(m, tag + d) for m, d in f1]
         for j in range(i + 1):
             if snaps[j] is None:
@@ -447,6 +603,11 @@ def _run_impl(case):
                                   f'{tag}the incoming mapping of the EARLIER operation #{j} ({ops[j]["op"]}) changed: '
                                   f'{f}; it was {snaps[j].repr[:160]} and now reads {stable_repr(adds[j])[:160]}'))
                 snaps[j] = Snapshot(adds[j])           # report each modification once
+        if err is not None and o.get('swallow') and not isinstance(err, RecursionError):
+            # a step with `swallow: True` (or a retry / failure handler): the pipeline goes on with the context
+            # as the failed operation left it
+            swallowed.append([i, common.exc_name(err)])
+            err = None
         if err is not None:
             obs = {'err': common.exc_name(err), 'at': i, 'msg': str(err)[:200]}
             break
@@ -455,7 +616,11 @@ def _run_impl(case):
             fails.append(('self-referential', f'{tag}the context contains itself after the operation'))
             obs = {'err': 'SelfReferentialContext', 'at': i, 'msg': ''}
             break
+    if swallowed and 'skip' not in heap:
+        heap = {'skip': 'swallowed-failure'}    # the heap-level model ends a sequence at the first failure
     if obs is not None:
+        if swallowed:
+            obs['errs'] = swallowed
         obs['heap'] = heap if 'skip' in heap else {k: heap[k] for k in ('cells', 'root', 'ops')}
         obs['combos'] = list(COMBOS)
         return obs, fails
@@ -473,6 +638,8 @@ def _run_impl(case):
         except RecursionError:
             heap = {'skip': 'too-deep'}
     obs = {'ok': w, 'heap': heap, 'combos': list(COMBOS)}
+    if swallowed:
+        obs['errs'] = swallowed
     if len(ops) == 1 and len(NAMED) == 1 and NAMED[0] is not None and ops[0]['op'] in ('merge', 'defaults'):
         try:
             obs['named'] = [[[canon_wire(enc9(k)) for k in p], b] for p, b in NAMED[0]]
@@ -496,10 +663,21 @@ def call_op(ctx, op, add):
         raise ValueError(op)
 
 
-def run_one(ctx, op, add):
+def run_one(ctx, op, add, use_ref=True, effects=False):
     """One operation on the live context with the monitors of the property text. Returns (exception | None, fails)."""
     from pypyr.context import Context
     before_copy = Snapshot(dict(ctx))
+    # the reference run's own copies (context + incoming mapping; a step's mapping is a value of the context)
+    octx = oadd = None
+    if use_ref and before_copy.copy is not None and isinstance(add, Mapping):
+        ocopy = Snapshot(dict(ctx)).copy
+        if op in STEP_KEY:
+            if isinstance(ocopy.get(STEP_KEY[op]), Mapping):
+                octx, oadd = Context(ocopy), ocopy[STEP_KEY[op]]
+        else:
+            oadd = Snapshot(add).copy
+            if oadd is not None:
+                octx = Context(ocopy)
     keep = keep_alive(dict(ctx), [])
     live_ids = live_id_map(ctx)
     fb = Formatter(before_copy.copy)
@@ -517,10 +695,20 @@ def run_one(ctx, op, add):
         err = e
     fails = []
     after = dict(ctx)
-    if isinstance(add, Mapping) and before_copy.copy is not None and not has_cycle(after) and not has_cycle(add):
+    if octx is not None:
+        log = RefLog()
+        try:
+            oerr = ref_apply(octx, op, oadd, log)
+            reference_monitor(op, err, after, octx, oerr, log, fails)
+        except RecursionError:
+            pass
+    if (isinstance(add, Mapping) and before_copy.copy is not None and not has_cycle(after) and not has_cycle(add)
+            and not effects):
         try:
             fa = Formatter(Snapshot(after).copy)
             nt = named_tree(add, before_copy.copy, fb, fa)
+            if err is not None and op in ('merge', 'step-merge'):
+                atomic_monitor(before_copy.copy, after, nt, [], fails)
             if err is None:
                 NAMED.append(flat_named(nt, before_copy.copy, op in ('defaults', 'step-default')))
             if op in ('merge', 'step-merge'):
@@ -697,7 +885,136 @@ def directed_cases():
         for repl in (5, 'text', None, [1], {'sic': 's'}):
             out.append({'stream': f'step:{op}:names-own-key', 'op': op,
                         'ctx': {'d': base + [[key, D(['a', 1], [key, repl])]]}})
-    return out + format_once_cases() + sequence_cases() + class_cases()
+    return (out + format_once_cases() + sequence_cases() + class_cases() + whole_entry_cases()
+            + inert_default_cases())
+
+
+PY_LEN = lambda name: {'py': {'len': {'n': name}}}                                     # !py len(<name>)
+PY_LEN_SUB = lambda name, key: {'py': {'len': {'idx': [{'n': name}, {'c': key}]}}}     # !py len(<name>['<key>'])
+
+
+def whole_entry_cases():
+    """An entry is formatted as a whole, against the context as it is BEFORE the entry writes, and written in one
+    go: incoming lists / tuples / sets with >= 2 members where a LATER member (i) refers to the very path it is
+    merged into ('{seen}', !py len(seen), one level down !py len(job['steps'])) or (ii) cannot be formatted
+    (missing key, !py NameError, a failure inside a nested member) after earlier members formatted fine; then the
+    same operation AGAIN (the failed one swallowed, the missing key supplied in between or not): nothing of the
+    failed entry may be there already. Also a failing entry in the middle of a mapping (entries before it written,
+    the rest not), a failing entry two levels down, and the same for set_defaults / the steps."""
+    out = []
+    ctx0 = [['seen', ['x']], ['other', 'untouched'], ['n', 1], ['tup', T('t0')], ['st', S('s0')],
+            ['job', D(['name', 'j1'], ['steps', ['s0']], ['meta', D(['log', ['m0']])])]]
+    selfref = {
+        'list-str': D(['seen', ['first new', 'had {seen} before']]),
+        'list-py-len': D(['seen', ['first new', PY_LEN('seen'), 'had {seen} before', PY_LEN('seen')]]),
+        'list-nested-member': D(['seen', ['a', D(['k', '{seen}']), ['{seen}']]]),
+        'list-sub': D(['job', D(['steps', ['s1', PY_LEN_SUB('job', 'steps'), 's3']])]),
+        'list-sub2': D(['job', D(['meta', D(['log', ['m1', 'job is {job}']])])]),
+        'tuple': D(['tup', T('t1', '{tup}', PY_LEN('tup'))]),
+        'list-first': D(['seen', ['{seen}', 'second']]),
+        'list-other-first': D(['n', 2], ['seen', ['n is {n}', PY_LEN('seen')]], ['after', '{seen}']),
+    }
+    ops1 = ('merge', 'step-merge')
+    for name, inc in selfref.items():
+        for op in ops1:
+            for ruamel in (False, True):
+                out.append({'stream': f'whole-entry:selfref:{name}:{op}', 'op': 'seq', 'ctx': {'d': list(ctx0)},
+                            'ruamel': ruamel, 'ops': [{'op': op, 'add': inc}]})
+        out.append({'stream': f'whole-entry:selfref:{name}:twice', 'op': 'seq', 'ctx': {'d': list(ctx0)},
+                    'ops': [{'op': 'merge', 'add': inc}, {'op': 'step-merge', 'add': inc}]})
+    failing = {
+        'list-missing-key': D(['seen', ['checkout', 'build', 'tag {release_tag}']]),
+        'list-missing-2nd': D(['seen', ['checkout', 'tag {release_tag}', 'after']]),
+        'list-py-nameerror': D(['seen', ['a', 'b', {'py': {'n': 'release_tag'}}]]),
+        'list-nested-member': D(['seen', ['a', D(['k', ['{release_tag}']])]]),
+        'list-sub': D(['job', D(['name', 'j2'], ['steps', ['s1', 's2', '{release_tag}']], ['late', 1])]),
+        'list-sub2': D(['other', 'touched'], ['job', D(['meta', D(['log', ['m1', '{release_tag}']], ['x', 1])])], ['z', 1]),
+        'tuple': D(['tup', T('t1', '{release_tag}')]),
+        'set': D(['st', S('s1', '{release_tag}')]),
+        'mid-mapping': D(['a1', 'one'], ['seen', ['y']], ['a2', '{release_tag}'], ['a3', 'never']),
+        'key': D(['a1', 'one'], ['{release_tag}', ['y']], ['a3', 'never']),
+        'new-list': D(['fresh', ['a', '{release_tag}']], ['seen', ['never']]),
+    }
+    supply = D(['release_tag', 'v1.2.3'])
+    for name, inc in failing.items():
+        for op in ops1:
+            for ruamel in (False, True):
+                # the failing operation on its own (the state it leaves is monitored), ...
+                out.append({'stream': f'whole-entry:fails:{name}:{op}', 'op': 'seq', 'ctx': {'d': list(ctx0)},
+                            'ruamel': ruamel, 'ops': [{'op': op, 'add': inc}]})
+                # ... swallowed and done again once the value is there (swallow + same step later, retry), ...
+                out.append({'stream': f'whole-entry:fails:{name}:{op}:again', 'op': 'seq', 'ctx': {'d': list(ctx0)},
+                            'ruamel': ruamel, 'ops': [{'op': op, 'add': inc, 'swallow': True},
+                                                      {'op': 'merge', 'add': supply}, {'op': op, 'add': inc}]})
+            # ... and retried without the value ever arriving (each attempt fails the same way on the same state)
+            out.append({'stream': f'whole-entry:fails:{name}:{op}:retry3', 'op': 'seq', 'ctx': {'d': list(ctx0)},
+                        'ops': [{'op': op, 'add': inc, 'swallow': True}, {'op': op, 'add': inc, 'swallow': True},
+                                {'op': op, 'add': inc, 'swallow': True}, {'op': 'merge', 'add': D(['done', '{seen}'])}]})
+    # set_defaults: the entries before a failing default are added, the rest not; again after the value arrived
+    dfail = D(['d1', 'one'], ['job', D(['steps', ['never']], ['extra', ['e', '{release_tag}']], ['extra2', 2])],
+              ['d2', ['a', '{release_tag}']], ['d3', 3])
+    for op in ('defaults', 'step-default'):
+        out.append({'stream': f'whole-entry:fails:defaults:{op}', 'op': 'seq', 'ctx': {'d': list(ctx0)},
+                    'ops': [{'op': op, 'add': dfail}]})
+        out.append({'stream': f'whole-entry:fails:defaults:{op}:again', 'op': 'seq', 'ctx': {'d': list(ctx0)},
+                    'ops': [{'op': op, 'add': dfail, 'swallow': True}, {'op': 'merge', 'add': supply},
+                            {'op': op, 'add': dfail}, {'op': 'merge', 'add': D(['d2', ['more']])}]})
+    return out
+
+
+def inert_default_cases():
+    """A default for a path that EXISTS is of no consequence: it is not evaluated. Existing paths (top level, child
+    of an existing mapping, existing scalar / None / falsy value where the default is a whole mapping, existing
+    list) x defaults whose evaluation is not inert: (a) cannot be formatted now ('{base_dir}/out', !py NameError, a
+    failing member inside a default list / mapping), (b) has a side effect (!py free_ports.pop() on a mutable
+    context list: arbitrary Python, no model side). The missing defaults next to them are still added - once,
+    evaluated once."""
+    out = []
+    POP = {'pysrc': 'free_ports.pop()'}
+    base = [['out_dir', '/srv/given'], ['db', D(['url', 'postgres://given/db'])], ['none', None], ['empty', ''],
+            ['zero', 0], ['false', False], ['elist', []], ['edict', D()], ['lst', ['l0']], ['port', 8080],
+            ['free_ports', [9001, 9002, 9003]], ['who', 'world']]
+    bad = {
+        'str': '{base_dir}/out', 'py': {'py': {'n': 'base_dir'}}, 'list': ['a', '{base_dir}'],
+        'map': D(['url', 'postgres://{db_host}/db'], ['pool', 5]), 'jsonify': {'jsonify': ['{base_dir}']},
+        'tuple': T('{base_dir}'), 'pop': POP, 'pop-in-list': [POP, POP], 'pop-in-map': D(['p', POP]),
+    }
+    existing = ['out_dir', 'none', 'empty', 'zero', 'false', 'elist', 'edict', 'lst', 'port']
+    n = 0
+    for bname, b in bad.items():
+        for ek in existing:
+            if ek == 'edict' and bname in ('map', 'pop-in-map'):
+                continue                                   # mapping x mapping descends: the children ARE missing
+            for op in ('defaults', 'step-default'):
+                n += 1
+                add = D(['first', 'f {who}'], [ek, b], ['retries', 3], ['label', 'writes to {out_dir}'])
+                case = {'stream': f'inert-default:{bname}:{ek}:{op}', 'ruamel': n % 3 == 0}
+                if op == 'defaults' and n % 2:
+                    case.update(op='defaults', ctx={'d': list(base)}, add=add)
+                else:
+                    case.update(op='seq', ctx={'d': list(base)}, ops=[{'op': op, 'add': add}])
+                out.append(case)
+    # one level down: the parent mapping exists, one child is given, one is missing
+    for bname, b in bad.items():
+        for op in ('defaults', 'step-default'):
+            add = D(['db', D(['url', b], ['pool', 5])], ['retries', 3])
+            out.append({'stream': f'inert-default:nested:{bname}:{op}', 'op': 'seq', 'ctx': {'d': list(base)},
+                        'ops': [{'op': op, 'add': add}, {'op': 'merge', 'add': D(['db', D(['pool', 6])])},
+                                {'op': op, 'add': add}]})
+    # key expressions that land on an existing path
+    out.append({'stream': 'inert-default:key-expr', 'op': 'defaults',
+                'ctx': {'d': list(base) + [['kk', 'out_dir']]},
+                'add': D(['{kk}', '{base_dir}/out'], ['retries', 3])})
+    # side-effecting defaults that ARE needed: evaluated exactly once, wherever they sit
+    for name, add in (('missing-top', D(['port2', POP], ['host', 'localhost'])),
+                      ('missing-nested', D(['server', D(['port', POP], ['host', 'localhost'])])),
+                      ('missing-in-list', D(['ports', [POP, 'x', POP]])),
+                      ('existing-parent', D(['db', D(['url', 'no'], ['port', POP])])),
+                      ('existing-and-missing', D(['port', POP], ['port2', POP], ['db', D(['url', POP], ['p', POP])]))):
+        for op in ('defaults', 'step-default', 'merge', 'step-merge'):
+            out.append({'stream': f'inert-default:side-effect:{name}:{op}', 'op': 'seq', 'ctx': {'d': list(base)},
+                        'ops': [{'op': op, 'add': add}]})
+    return out
 
 
 ACC_INITS = {
@@ -897,6 +1214,14 @@ def alias_cases():
                  'ctx': D(['a', D(['inner', [1]])], ['x', 'b']),
                  'add': D(['b', '{a:ff}'], ['{x}', D(['inner', [2]], ['more', 1])])},
                 {'site': 'merge_recurse', 'alias': 'ff-result-extended-in-place'}))
+    # the same through `!py a`: the expression's value IS the context's object
+    out.append(({'stream': 'alias:py', 'op': 'merge', 'ctx': D(['a', [1]], ['x', 'b']),
+                 'add': D(['b', {'py': {'n': 'a'}}], ['{x}', [2]])},
+                {'site': 'merge_recurse', 'alias': 'ff-result-extended-in-place', 'via': '!py name'}))
+    # ... stored one level down in itself: the context contains itself afterwards
+    out.append(({'stream': 'alias:py-self', 'op': 'merge', 'ctx': D(['e1', D(['c', 'x'])]),
+                 'add': D(['e1', D(['c', {'py': {'n': 'e1'}}])])},
+                {'site': 'merge_recurse', 'alias': 'ff-result-extended-in-place', 'via': '!py name, self-referential'}))
     # the step hands context[key] itself to merge: naming `key` with a mapping merges it into itself
     out.append(({'stream': 'alias:step-merge-self', 'op': 'step-merge',
                  'ctx': D(['contextMerge', D(['contextMerge', D(['a', 1])])])},
@@ -986,8 +1311,12 @@ def random_case(rng):
         pairs.append([name, rng.choice(['L-one', 'two words', '7'])])
     ctx = {'d': pairs}
 
+    bytes_keys = set()     # root keys that hold / ever held bytes
+
     def scan_root(prs):
         for k, v in prs:
+            if isinstance(v, dict) and 'b' in strip_cls(v):
+                bytes_keys.add(k)
             if isinstance(v, str) and '{' not in v and '}' not in v and k not in str_keys:
                 str_keys.append(k)
             if k not in any_keys and not (isinstance(v, dict) and ('b' in v or 'set' in v)):
@@ -1008,7 +1337,9 @@ def random_case(rng):
         form = rng.random()
         spec = ''
         if k in str_keys and rng.random() < 0.3:
-            spec = rng.choice([':ff', ':rf'])        # ff on a container would alias it into the context
+            # ff on a container would alias it into the context: only on keys no incoming mapping ever names (a
+            # swallowed failure may have left another key a container although the mapping that failed rebinds it)
+            spec = rng.choice([':ff', ':rf']) if k in lit_keys else ':rf'
         if form < 0.5:
             return '{' + k + spec + '}'
         k2 = rng.choice(str_keys) if str_keys else None
@@ -1035,6 +1366,16 @@ def random_case(rng):
                 v = incoming_for(cur, depth - 1, False)
             elif isinstance(cur, list) and q < 0.6:
                 v = [rng.choice([vexpr(), leaf()]) for _ in range(rng.randint(0, 3))]
+                r2 = rng.random()
+                if r2 < 0.3 and at_root and isinstance(k, str) and k in root_exists:
+                    # >= 2 members, a LATER one refers to the very list the entry is merged into
+                    # (len() of bytes is outside PyEval.lean: no !py len(k) on a key that ever held bytes)
+                    lenk = PY_LEN(k) if k not in bytes_keys else '{' + k + '}'
+                    v = (v or ['m0']) + [rng.choice(['{' + k + '}', lenk])] + ([lenk] if rng.random() < 0.3 else [])
+                elif r2 < 0.42:
+                    # ... or cannot be formatted after earlier ones formatted fine
+                    v = (v or ['m0']) + [rng.choice(['{nope}', 'x {nope}', {'py': {'n': 'nope'}}, D(['k', '{nope}'])])] \
+                        + ['tail'] * rng.randint(0, 1)
             elif isinstance(cur, dict) and 't' in cur and q < 0.6:
                 v = T(*[rng.choice([vexpr(), leaf()]) for _ in range(rng.randint(0, 3))])
             elif isinstance(cur, dict) and 'set' in cur and q < 0.6:
@@ -1044,12 +1385,18 @@ def random_case(rng):
                 if r < 0.35:
                     v = vexpr()
                 elif r < 0.45:
-                    v = rng.choice([{'sic': 'raw {zq}'}, {'py': {'n': rng.choice(str_keys)}} if str_keys else {'sic': 's'},
+                    # !py <name> hands back the context's own object: only names that always hold a string
+                    v = rng.choice([{'sic': 'raw {zq}'}, {'py': {'n': rng.choice(lit_keys)}} if lit_keys else {'sic': 's'},
                                     {'jsonify': D(['j', vexpr()])}])
                 elif r < 0.6 and depth > 0:
                     v = incoming_for({'d': []}, depth - 1, False)
                 else:
                     v = tree(rng.randint(0, 2))
+            if cur_defaults[0] and cur is not _ABSENT and rng.random() < 0.3 and not (
+                    isinstance(cur, dict) and 'd' in cur and isinstance(v, dict) and 'd' in v):
+                # a default for a path that EXISTS (no descent): of no consequence, whatever evaluating it would do
+                v = rng.choice(['{nope}/out', ['a', '{nope}'], {'py': {'n': 'nope'}}, {'jsonify': ['{nope}']},
+                                T('{nope}')] + ([D(['u', '{nope}'], ['p', 5])] if not (isinstance(cur, dict) and 'd' in cur) else []))
             # key: literally, or as an expression whose value is this key's name
             kk = k
             if isinstance(k, str) and rng.random() < 0.2:
@@ -1060,6 +1407,8 @@ def random_case(rng):
                 continue
             seen.add(canon(kk))
             prs.append([kk, v])
+            if at_root and isinstance(v, dict) and 'b' in v:
+                bytes_keys.add(k)
             if at_root and isinstance(k, str):
                 exists = k in root_exists          # in the context by now (not only in the tree this one is derived from)
                 root_exists.add(k)
@@ -1095,6 +1444,9 @@ def random_case(rng):
             add2 = incoming_for(base, 3, True)
             ops.append({'op': op2, 'add': add2})
             prev = add2
+        for o in ops:
+            if rng.random() < 0.5:
+                o['swallow'] = True       # a failure of this operation is swallowed: the sequence goes on
         case = {'stream': 'random-seq', 'op': 'seq', 'ruamel': rng.random() < 0.25, 'ctx': ctx, 'ops': ops}
         return sprinkle_case(case, rng) if rng.random() < 0.4 else case
     case = {'stream': 'random', 'op': op, 'ruamel': rng.random() < 0.25}
